@@ -376,17 +376,25 @@ func (b *Broker) WaitClosed(conn *memconn.Conn) bool {
 	}
 }
 
-// Shutdown closes every client and waits for them.
+// Shutdown closes every client and waits for them. It never blocks for longer
+// than about two ceilings, also when the backend under test is deadlocked.
 func (b *Broker) Shutdown() bool {
-	ok := b.Mem.Close(ev.Ceiling())
+	done := make(chan bool, 1)
+	go func() { done <- b.Mem.Close(ev.Ceiling()) }()
+	ok := false
+	select {
+	case ok = <-done:
+	case <-time.After(ev.Ceiling() + time.Second):
+	}
 	for _, c := range b.Rec.Clients() {
 		c.Close()
 	}
+	deadline := time.After(ev.Ceiling())
 	for _, c := range b.Rec.Clients() {
 		select {
 		case <-c.Closed():
-		case <-time.After(ev.Ceiling()):
-			ok = false
+		case <-deadline:
+			return false
 		}
 	}
 	return ok
